@@ -490,3 +490,28 @@ def family_calls(F, fn, _depth=0):
             if e[0] == "closure" and e[1] in F.fns and _depth < 3:
                 for _, cb in family_calls(F, F.fns[e[1]], _depth + 1):
                     yield i, cb
+
+
+def tainted_locals(fn, seeds):
+    """forward closure of 'derived from' over simple moves/borrows/casts and over calls (a call's destination is
+    derived from each of its arguments). seeds / results are local names like '_2'."""
+    taint = set(seeds)
+    base = re.compile(r"_\d+")
+    changed = True
+    while changed:
+        changed = False
+        for b in fn.blocks:
+            for e in b["e"]:
+                if e[0] == "mv" and e[1] not in taint:
+                    if any(x in taint for x in base.findall(e[2])):
+                        taint.add(e[1])
+                        changed = True
+                elif e[0] in ("agg",) and False:
+                    pass
+            if b["k"] == "call":
+                d = base.match(b.get("dest") or "")
+                if d and d.group(0) not in taint:
+                    if any(x in taint for a in b["args"] for x in base.findall(a)):
+                        taint.add(d.group(0))
+                        changed = True
+    return taint
